@@ -160,9 +160,17 @@ def generate(tier, seed):
         if n <= 5:
             yield from aset_cases(n, ['tie', ls], lo, hi)
         yield from aset_cases(n, ['gen', seed], lo, hi)
+    # value distributions: a tight cluster on a large offset and tiny magnitudes (the band is defined on the
+    # normalised values, which are perfectly well defined for these)
+    yield {'__level__': 'active_set/clustered_and_tiny_values'}
+    for n in range(2, 9):
+        yield from aset_cases(n, ['aff', seed, 1000.0, 1e-3], lo, hi)
+        yield from aset_cases(n, ['aff', seed, 0.0, 1e-9], lo, hi)
     yield {'__level__': 'aggregation_bounds'}
     nmax, ntie = (6, 3) if tier == 'quick' else (8, 4)
-    scales = [1.0] if tier == 'quick' else [0.1, 1.0, 10.0]
+    # scale 200 spreads the data over several hundred: |alpha|*(max-min) far beyond the exp() range (SoftMinMax is
+    # stated for all positive data; KS/PNorm points outside the naive exp/power range are skipped by agg.in_range)
+    scales = [1.0, 200.0] if tier == 'quick' else [0.1, 1.0, 10.0, 200.0]
     for n in range(1, nmax + 1):
         if n <= ntie:
             yield from agg_cases(n, ['tie', ls], tier)
@@ -205,6 +213,8 @@ def expand_vecs(case):
     if g[0] == 'tie':
         pre = tuple(case.get('prefix', []))
         return [['tie', g[1], list(pre + d)] for d in itertools.product(range(3), repeat=n - len(pre))]
+    if g[0] == 'aff':
+        return [['aff', k, n, g[1], g[2], g[3]] for k in range(3)]
     scales = g[2:] or [1.0]
     return [['gen', k, n, g[1], s] for s in scales for k in range(3)]
 
